@@ -61,6 +61,8 @@ class Env:
             return tuple(keys)
         if kind == "gen":
             return (k for k in keys)
+        if kind == "pyset":
+            return set(keys)
         if kind == "dictkeys":
             return dict.fromkeys(keys).keys()
         if kind == "keysview":
@@ -88,6 +90,8 @@ class Env:
             return list(obj.items())
         if spec[0] in ("list", "tuple"):
             return list(obj)
+        if spec[0] == "pyset":
+            return frozenset(obj)
         return None
 
     def canon(self, r, a, b):
